@@ -1,4 +1,4 @@
 SPECIFICATION TSpec
-CONSTANTS Ids = {} Items = {} MaxN = 0 Fams = {}
+CONSTANTS Ids = {} Items = {} MaxN = 0 Fams = {} CheckDesign = FALSE
 POSTCONDITION Accepted
 CHECK_DEADLOCK FALSE
